@@ -37,17 +37,19 @@ type objInfo struct {
 
 // G is the generator state.
 type G struct {
-	t       *tape.Tape
-	p       Profile
-	nextID  int
-	slots   map[int]*N
-	funcs   []fnInfo
-	objs    []objInfo
-	intVars []string
-	nVar    int
-	noFault int
-	noBrace int // >0 inside an embedded-string part: the lexer cannot nest `{`..`}` there
-	budget  int
+	t           *tape.Tape
+	p           Profile
+	nextID      int
+	slots       map[int]*N
+	funcs       []fnInfo
+	objs        []objInfo
+	intVars     []string
+	topInts     []string // top-level int variables (targets of compound assignment)
+	selfMethods []fnInfo // inside a method body: int-returning methods of the same object defined before it
+	nVar        int
+	noFault     int
+	noBrace     int // >0 inside an embedded-string part: the lexer cannot nest `{`..`}` there
+	budget      int
 }
 
 // Generate draws one program from the tape.
@@ -87,7 +89,12 @@ func (g *G) topStmt() *N {
 		}
 		return &N{K: KExprS, A: g.anyExpr(g.p.MaxDepth, "stmt/expr")}
 	case 1: // int variable
+		if len(g.topInts) > 0 && g.t.Chance(1, 4) {
+			// compound assignment to an existing top-level int variable
+			return &N{K: KAssign, Str: g.topInts[g.t.Intn(len(g.topInts))], Msg: g.ops(), A: g.intExpr(g.p.MaxDepth, "assign/rhs")}
+		}
 		name := g.name("v")
+		g.topInts = append(g.topInts, name)
 		s := &N{K: KAssign, Str: name, A: g.intExpr(g.p.MaxDepth, "assign/rhs")}
 		g.intVars = append(g.intVars, name)
 		return s
@@ -118,7 +125,14 @@ func (g *G) topStmt() *N {
 			}
 			retInt := !g.t.Chance(1, 4)
 			mname := fmt.Sprintf("m%d", i)
+			g.selfMethods = nil
+			for _, prev := range info.methods {
+				if prev.retInt {
+					g.selfMethods = append(g.selfMethods, prev)
+				}
+			}
 			o.L = append(o.L, g.funcLit(np, kw, true, retInt, g.p.MaxDepth-1, nil))
+			g.selfMethods = nil
 			o.Names = append(o.Names, mname)
 			o.Star = append(o.Star, 0)
 			info.methods = append(info.methods, fnInfo{mname, np, kw, retInt})
@@ -133,6 +147,12 @@ func (g *G) topStmt() *N {
 // funcLit builds a function literal. params are int-typed inside the body.
 func (g *G) funcLit(np int, kw []string, method, retInt bool, depth int, paramNames []string) *N {
 	f := &N{K: KFunc, Method: method}
+	if !method {
+		// `self` of an enclosing method is not the first argument of a nested literal
+		savedSelf := g.selfMethods
+		g.selfMethods = nil
+		defer func() { g.selfMethods = savedSelf }()
+	}
 	saved := g.intVars
 	defer func() { g.intVars = saved }()
 	scope := append([]string(nil), g.intVars...)
@@ -285,6 +305,16 @@ func (g *G) intExpr(depth int, role string) *N {
 	}
 	g.budget--
 	chainW := g.p.ChainW
+	if len(g.selfMethods) > 0 && g.t.Chance(1, 4) {
+		// anonymous chain `.m(args)`: property call on the method's own receiver
+		mth := g.selfMethods[g.t.Intn(len(g.selfMethods))]
+		c := &N{K: KPropC, A: nil, Str: mth.name, Chain: Chain{Main: '.'}}
+		saved := g.selfMethods
+		g.selfMethods = nil
+		g.callArgs(c, mth.np, mth.kw, depth-1, true)
+		g.selfMethods = saved
+		return c
+	}
 	if g.p.Thoughtful && g.noBrace == 0 && g.t.Chance(1, 14) {
 		// try/Either as the enclosing handler: a failure in the body is absorbed
 		return &N{K: KTry, A: g.intExpr(depth-1, "try/recv"), B: g.funcLit(1, nil, false, true, depth, []string{"x"}), Str: "or", C: &N{K: KInt, Int: int64(700 + g.t.Intn(9))}}
